@@ -403,6 +403,20 @@ def relocator_mesh_grid(mask, sub_size, pixel_scales, origin, grid, grid2, mesh_
     msg = _check_with_ties(mesh_grid, grid, cands, np.asarray(out), rel.sub_border_slim)
     if msg:
         return "mesh.relocated_mesh_grid_from: " + msg
+    # end to end through the mesh: Delaunay().mapper_grids_from relocates the data grid, then the mesh vertices ONCE against the
+    # border of the relocated data grid (the rule applied once; a second pass pulls vertices further in)
+    data_rel = np.asarray(rel.relocated_grid_from(grid=aa.Grid2DIrregular(values=grid.copy())), dtype=float)
+    if len(mesh_grid) >= 3 and len({tuple(np.round(v, 9)) for v in mesh_grid.tolist()}) == len(mesh_grid):
+        try:
+            mg = aa.mesh.Delaunay().mapper_grids_from(mask=rel.mask, border_relocator=rel, source_plane_data_grid=aa.Grid2DIrregular(values=grid.copy()),
+                                                      source_plane_mesh_grid=aa.Grid2DIrregular(values=mesh_grid.copy()))
+            got_mesh = np.asarray(mg.source_plane_mesh_grid, dtype=float).reshape(-1, 2)
+        except Exception:
+            got_mesh = None                           # degenerate triangulations are the mapper's business (C06), not relocation's
+        if got_mesh is not None and got_mesh.shape == mesh_grid.shape:
+            msg = _check_with_ties(mesh_grid, data_rel, cands, got_mesh, rel.sub_border_slim)
+            if msg:
+                return "Delaunay().mapper_grids_from(...).source_plane_mesh_grid (vertices relocated against the relocated data grid): " + msg
     # the same relocator in any order of use: relocating data grid A first must not change what the mesh relocation against
     # data grid B does (and back again)
     for la, ga, lb, gb in (("first", grid, "second", grid2), ("second", grid2, "first", grid)):
